@@ -208,7 +208,20 @@ def check_C07(tier, seed, t0):
     return ir_flow("C07", tier, seed, descs, KRY, models, COMMON_ASSUME, t0)
 
 
-CHECKS = {"C05": check_C05, "C01": check_C01, "C02": check_C02, "C07": check_C07}
+C13_RULES = ["I:WorkBound", "I:KInRange", "I:ShiftInRange", "I:RestartsBounded", "G:ShiftBegin", "G:Shift", "G:NevAdj", "G:CompressH", "G:CompressV",
+             "G:RestartBegin", "G:FacBegin", "G:FacStep", "AllFinite", "OpArgsValid", "Abort", "UndocumentedException", "StatusDocumented",
+             "Hang", "FacFinite", "ExpandBasisFailed", "EndedMidCall", "HeapOverrun"]
+
+
+def check_C13(tier, seed, t0):
+    rng = random.Random(5000 + seed)
+    descs = P.degenerate(rng, n_of(tier, 220, 4000), types=types_for(tier))
+    descs += P.herm_basic(rng, n_of(tier, 30, 500), meas=0) + P.gen_basic(rng, n_of(tier, 30, 500), meas=0, ref=0)
+    models = [("MC_IR.tla", "IR_quick.cfg" if tier == "quick" else "IR_design.cfg", 8), ("MC_IR.tla", "IR_live.cfg", 4)]
+    return ir_flow("C13", tier, seed, descs, C13_RULES, models, COMMON_ASSUME, t0, hang_is_violation=True)
+
+
+CHECKS = {"C05": check_C05, "C01": check_C01, "C02": check_C02, "C07": check_C07, "C13": check_C13}
 
 
 def main():
